@@ -42,7 +42,8 @@ EXPLANATION = (
     "headers go through the protocol sink proven by C01.W3. (Z6) connection_lost of the client "
     "protocol the proxy fetches with is interpreted abstractly with exc set (header received or "
     "not) and with a clean close before any header: every feasible path ends in set_exception, "
-    "so an upstream reset mid-body cannot be relayed as a truncated 20."
+    "so an upstream reset mid-body cannot be relayed as a truncated 20. "
+    "(Z7) = C17.Y5: each location is served with its own timeout."
 )
 
 PROXY = "server.proxy:ProxyHandler"
